@@ -24,7 +24,10 @@ META = {
 }
 GROUP = "planner"
 REQ = "From RV Require Import Prelude.\nFrom Planner Require Import Graph PlannerModel PlanCache Validate.\nOpen Scope N_scope.\nNotation case := case26 (only parsing)."
-THEOREMS = []
+THEOREMS = ["C26_request_no_panic", "C26_run_preserves_cache", "C26_invalid_request_errs",
+            "C26_unknown_or_operator_id_errs", "C26_duplicate_id_errs", "C26_missing_input_errs",
+            "C26_metadata_mismatch_errs", "C26_partial_run_no_panic", "C26_oracle_sound",
+            "C26_example_closed", "C26_example_runs"]
 
 
 def main(ctx):
@@ -38,7 +41,7 @@ def main(ctx):
                     "hook rten::verif::planner::TestGraph::{run,partial_run} call Graph::run / Graph::partial_run, "
                     "which Model::run / Model::partial_run delegate to"]
     ctx.audit(GROUP)
-    failed = ctx.prove(GROUP, "Props_C26", THEOREMS) if THEOREMS else []
+    failed = ctx.prove(GROUP, "Props_C26", THEOREMS)
     ok, out = ctx.make(GROUP, ["Validate.vo"])
     if not ok:
         raise vf.CheckerBroken("model does not build: " + out[-1500:])
